@@ -461,7 +461,9 @@ def run(job, seed):
                     w.delete('policy.d/h.yaml')
                 for rel, text in layout.items():
                     w.write(rel, text)
-                if hist:
+                if hist and idx % 4 == 0:
+                    # ... and has already seen the present files; in the
+                    # other half the TOOL is the first to look at them
                     enf.enforce(reg_names[0], {}, {'roles': ['z']})
                 names = sorted(set(reg_names) | set(f) | {'hist:x'})
                 case['enforcer_has_history'] = hist
